@@ -130,7 +130,7 @@ func baseTuples() []*openfgav1.TupleKey {
 }
 
 func setupFixture(ts *testServer) (*fixture, error) {
-	ctx, cancel := context.WithTimeout(context.Background(), 60*time.Second)
+	ctx, cancel := context.WithTimeout(context.Background(), time.Duration(float64(90*time.Second)*loadFactor()))
 	defer cancel()
 	fx := &fixture{}
 	mk := func(name, dsl string) (string, string, error) {
